@@ -58,7 +58,14 @@ def run(ctx):
                '{repeat "a,b" 1000000000000000000}', '{round 1 50000000000}', '{@range 9223372036854775800 9223372036854775807 5}',
                '{@range 0 9223372036854775807}', '{@for 0 {lt {1} 3} {k}}', '{@map {0} "{-1}"}', '{! 5 % x}', '{! -}', '{! 2 + -}',
                '{! 1 << -1}', '{hi -9223372036854775808}', '{-9223372036854775808}', '{bucket -100 50}', '{@slice {@ a b c} -5}',
-               '{percent 1 9007199254740992}', '{bytesize 1 9223372036854775807}', '{timeattr 0 quarter}', '{format %d%s%v x}']
+               '{percent 1 9007199254740992}', '{bytesize 1 9223372036854775807}', '{timeattr 0 quarter}', '{format %d%s%v x}',
+               # round 2: the scaling loop of expbucket at the int64 end, fmt corner cases, the time helpers at the ends of Go's time range
+               '{expbucket 9223372036854775807}', '{expbucket 9169610316303040512}', '{expbucket {1}}', '{format "%[9]*.[2]*[1]q %!" a b}',
+               '{format "%1000001s" x}', '{format "%.*[1]s %[3]*.[2]*[1]s|%" a b c}', '{format {0} {1} {1}}',
+               '{time "2016-03-27 02:30:00" "2006-01-02 15:04:05" Europe/Berlin}', '{timeformat 9223372036854775807 RFC3339 Asia/Tokyo}',
+               '{timeformat -9223372036854775808}', '{timeattr -9223372028715321601 yearweek}', '{timeattr 9223372036854775807 week Pacific/Apia}',
+               '{buckettime x nanos auto local}', '{buckettime "2016-02-30T00:00:00Z" d}', '{duration 9223372036854775807ns}',
+               '{durationformat -9223372036854775808}', '{time now a b c}', '{time live}{time delta}', '{timeformat {time now} "__2 002 Z07:00:00"}']
     hostile += guard_family(ctx)
     for e in hostile:
         rc, out, err = limited([exe, "expression", "-d", "x", "-d", "-7", e], timeout=30)
